@@ -387,6 +387,34 @@ example : AslProofs.Csv.HexText [48, 120, 70, 102] ∧ AslProofs.Csv.hexValue [4
 example : Csv.typedRow 46 [.str, .hex] (parseRow 59 (Csv.rowTextG 59 46 [.str [120], .str [49, 70]]))
     = [.str [120], .int 31] := by decide
 
+/-- **csv_typed_row_prefix.**  `readAs(types)` with a type string of ANY length against the row: the cells that have a
+    type character come back as in `csv_typed_row` (`s`, `n`, `i`, `h`, dropped), the cells beyond the type string are
+    inferred as by the untyped reader and come back as written (strings that do not spell numbers, number texts), for
+    the writer / reader decimal settings of the untyped theorems (`.`/`.`, `.` read in a `;` file, `,`/`,`); type
+    characters beyond the last cell are ignored.  `types = []` is the untyped reader, `types.length = row.length` is
+    `csv_typed_row`. -/
+theorem csv_typed_row_prefix (sep : UInt8) (hsep : sep ≠ 34) (wdec rdec : UInt8) (hd : wdec = 46 ∨ wdec = rdec)
+    (types : List Csv.ColType) (c : Cell) (t : List Cell)
+    (hok : ∀ x ∈ c :: t, CellOK sep (Csv.localize wdec x))
+    (hf : AslProofs.Csv.FitsPrefix rdec types (c :: t))
+    (hw : ∀ x ∈ (c :: t).drop types.length, AslProofs.Csv.InferWF wdec rdec x) :
+    Csv.typedRow rdec types (parseRow sep (Csv.rowTextG sep wdec (c :: t))) =
+      ((types.zip (c :: t)).filterMap fun p => AslProofs.Csv.typedSpec p.1 p.2) ++
+        ((c :: t).drop types.length).map AslProofs.Csv.expected :=
+  AslProofs.Csv.typed_row_roundtrip_prefix sep hsep wdec rdec hd types c t hok hf hw
+
+/-- the row `007,1F,x` read with `readAs("sh")`: two typed cells, the third inferred -/
+example : Csv.typedRow 46 [.str, .hex] (parseRow 44 (Csv.rowTextG 44 46 [.str [48, 48, 55], .str [49, 70], .str [120]]))
+    = [.str [48, 48, 55], .int 31, .str [120]] := by decide
+
+example : AslProofs.Csv.FitsPrefix 46 [.str, .hex] [.str [48, 48, 55], .str [49, 70], .str [120]] ∧
+    (∀ x ∈ ([Cell.str [48, 48, 55], .str [49, 70], .str [120]]).drop 2, AslProofs.Csv.InferWF 46 46 x) := by
+  refine ⟨⟨trivial, ⟨[], [49, 70], Or.inl rfl, rfl, by simp, ?_, by decide⟩, trivial⟩, ?_⟩
+  · intro c hc; simp at hc; rcases hc with rfl | rfl <;> decide
+  · intro x hx
+    simp at hx; subst hx
+    exact Or.inl ⟨rfl, rfl, by decide, by decide, by decide, by decide, by decide⟩
+
 /-- **csv_header_sniff.**  `readHeader` recognises the separator of every header the writer produces with `,`, `;` or
     tab from identifier column names — two columns at least unless the separator is the default — whatever follows
     the header line: separator as written, decimal symbol `,` for `;` files and `.` otherwise, names as written,
